@@ -440,8 +440,11 @@ def s7_insert_result(chk, db, rec_q, funcs):
             return e is not None and e.get("k") == "call" and astx.callee(e)[0] in ("insert", "emplace")
         if all(delegates(r["e"]) for r in rets):
             continue
-        if not any(c for c in astx.all_exprs(f) if c.get("k") == "call" and astx.callee(c)[0] in ("lower_bound", "find")):
+        searches = any(c for c in astx.all_exprs(f) if c.get("k") == "call" and astx.callee(c)[0] in ("lower_bound", "find"))
+        if not searches and not any(delegates(r["e"]) for r in rets):
             continue
+        # (a member that delegates on some paths and answers by itself on others is judged on the latter: without a search of
+        # its own no position it returns can be the stored equivalent element's)
         n += 1
         construct = astx.sig(f)
         chk.instance("S7")
